@@ -137,8 +137,9 @@ Definition y_parity (y : Z) : N := Z.to_N (y mod 2).
 
 Inductive point1 := Inf1 | Aff1 (x y : Z).
 Inductive point2 := Inf2 | Aff2 (x y : gfp2).
-(* Hang: the driver's watchdog gave up twice (20 s, 60 s); the model never produces it *)
-Inductive res1 := R1 (pt : point1) | Err1 | Panic1 | Hang1.
+(* Hang: the driver's watchdog gave up twice (20 s, 60 s); Nil: a nil *bn256.G1 came back
+   without an error; the model never produces either *)
+Inductive res1 := R1 (pt : point1) | Err1 | Panic1 | Hang1 | Nil1.
 Inductive res2 := R2 (pt : point2) | Err2 | Panic2 | Hang2.
 
 Section Codec.
@@ -236,6 +237,24 @@ Section Codec.
         end
     end.
   Definition hash_to_point (fuel : nat) (h : Z) : option res1 := hash_loop fuel (h mod p).
+
+  (* the same loop, also counting the increments (`x.Add(x, one)`) executed before the accepted
+     x: what the judge runs on the long-run corpus, where the driver reports the run length it
+     computed on its own (Jacobi symbols).  Proofs/C04.v: its second component is [hash_loop],
+     the count n is the FIRST offset with a square, and the accepted x is (h mod p) + n. *)
+  Fixpoint hash_run (fuel : nat) (x : Z) : option (Z * res1) :=
+    match fuel with
+    | O => None
+    | S f =>
+        match modsqrt (x * x * x + curveB) with
+        | Some y => Some (0, g1_from_ints x y)
+        | None => match hash_run f (x + 1) with
+                  | Some (n, r) => Some (n + 1, r)
+                  | None => None
+                  end
+        end
+    end.
+  Definition hash_to_point_run (fuel : nat) (h : Z) : option (Z * res1) := hash_run fuel (h mod p).
 End Codec.
 
 (* ---------------- cases and the executable property ---------------- *)
@@ -278,7 +297,10 @@ Inductive case :=
 | CDec1 (m : list N) (d : res1)
 | CDec2 (m : list N) (d : res2)
 (* G1HashToPoint: sha256(m) as an integer, the returned point, the same call repeated *)
-| CHash (h : Z) (pt rep : res1).
+| CHash (h : Z) (pt rep : res1)
+(* the same for a message ground for a long try-and-increment run: additionally the number of
+   increments the driver computed independently of the implementation (Jacobi symbols) *)
+| CHashRun (h : Z) (run : Z) (pt rep : res1).
 
 Section Judge.
   Variable p : Z.
@@ -306,8 +328,8 @@ Section Judge.
     | CRound2 pt _ d => res2_eqb d (R2 pt)
     | CDec1 m d => match d with R1 pt => valid1 pt | Err1 => true | _ => false end
     | CDec2 m d => match d with R2 pt => valid2 pt | Err2 => true | _ => false end
-    | CHash h pt rep => res1_eqb pt rep &&
-                        match pt with R1 (Aff1 x y) => valid1 (Aff1 x y) | _ => false end
+    | CHash h pt rep | CHashRun h _ pt rep =>
+        res1_eqb pt rep && match pt with R1 (Aff1 x y) => valid1 (Aff1 x y) | _ => false end
     end.
 
   Definition cres_eqb (a : cres) (b : list N) : bool :=
@@ -333,12 +355,20 @@ Section Judge.
         | Some r => res1_eqb pt r
         | None => false
         end
+    | CHashRun h run pt _ =>
+        (* the model's result, its x = (h mod p) + run, and its own count of increments = run *)
+        match hash_to_point_run p modsqrt hash_fuel h with
+        | Some (n, r) => res1_eqb pt r && (n =? run) &&
+                         match r with R1 (Aff1 x _) => x =? h mod p + run | _ => false end
+        | None => false
+        end
     end.
 
   Definition wellformed (c : case) : bool :=
     match c with
     | CDec1 m _ => (length m =? 32)%nat && forallb (fun b => N.ltb b 256) m
     | CDec2 m _ => (length m =? 64)%nat && forallb (fun b => N.ltb b 256) m
+    | CHashRun _ run _ _ => 0 <=? run
     | _ => true
     end.
 
@@ -352,6 +382,12 @@ Section Judge.
     | CDec1 m _ => ([], Some (decompress1 p modsqrt m), None)
     | CDec2 m _ => ([], None, Some (dec2 m true))
     | CHash h _ _ => ([], hash_to_point p modsqrt hash_fuel h, None)
+    | CHashRun h _ _ _ =>
+        (* the first component carries the model's increment count *)
+        match hash_to_point_run p modsqrt hash_fuel h with
+        | Some (n, r) => ([Z.to_N n], Some r, None)
+        | None => ([], None, None)
+        end
     end.
 End Judge.
 
